@@ -246,34 +246,4 @@ def run(ctx):
         ctx.inst("R11.3", "cumulative-sum", cum_bad is None and seen_push >= 2, "", cum_bad or "%d push sites: first = new, otherwise new + last" % seen_push)
 
     # ---------------------------------------------------------------- R11.4
-    n4 = 0
-    for (st, root, depth, ckey) in sorted(em.steps.values(), key=lambda x: (x[3], x[2])):
-        bad = None
-        stores = 0
-        for q in st.ok_paths():
-            vals = em.stored_position(st, q)
-            if not vals:
-                continue
-            rms = em.remain_margin_calls(q)
-            for val in vals:
-                stores += 1
-                m_ = ix.inline(sym.field(val, "margin"))
-                c_ = ix.inline(sym.field(val, "last_updated_premium_fraction"))
-                m_rm = [e for e in rms if m_ == st.c(sym.field(sym.unwrap(e.result), "margin"))]
-                c_rm = [e for e in rms if c_ == st.c(sym.field(sym.unwrap(e.result), "latest_premium_fraction"))]
-                if m_rm or c_rm:
-                    if not (m_rm and c_rm and m_rm[0] is c_rm[0]):
-                        bad = bad or "margin %s a remain-margin result but checkpoint %s (funding would be %s)" % (
-                            "comes from" if m_rm else "does NOT come from", "comes from the same result" if c_rm else "does NOT", "charged twice" if m_rm else "skipped")
-                else:
-                    # neither: the checkpoint must be the loaded one, or both are reset to zero with the size
-                    zero_reset = N(ix, c_) == ("pos", ("int", 0)) and N(ix, m_) == ("int", 0)
-                    if not zero_reset:
-                        cb = c_
-                        preserved = tag(cb) == "field" and payload(cb)[0] == "last_updated_premium_fraction" and em.is_position_value(kids(cb)[0])
-                        if not preserved:
-                            bad = bad or "checkpoint becomes %s while the margin is not settled" % sym.show(c_, 5)
-        if stores:
-            n4 += 1
-            ctx.inst("R11.4", "pairing:%s:%s" % (short_fn(st.fn), st.label), bad is None, st.fn.where(),
-                     "%d position stores; %s" % (stores, bad or "margin and checkpoint move together (same remain-margin result), or both untouched/reset"))
+    pairing_instances(ctx, em, "R11.4")
